@@ -75,6 +75,50 @@ func genFileSet(t *rapid.T, mutate bool) progCase {
 	return c
 }
 
+// soupLines are small statements that each use one language feature on the same handful of
+// names (a, b, x, y, c1, c2, v, w, q): drawn together they make the features meet each other -
+// variables spread into maps that then null a field, imports inside arrays, classes on
+// connections that use themselves, filters over maps holding a spread import, ...
+var soupLines = []string{
+	"a", "b", "a -> b", "a -> b: {class: c1}", "x -> y: {class: [c1; c2]}", "a.class: c1", "a.class: [c1; c2]", "b.class: c2",
+	"classes: {c1: {class: c1}}", "classes: {c1: {class: c2}; c2: {class: c1}}", "classes: {c1: {style.fill: red}; c2: {shape: circle}}", "classes: {c1: {style.stroke: blue; target-arrowhead.shape: diamond}}",
+	"classes: {c1: ${v}}", "classes: {...${v}}", "classes.c1.label: ${a}",
+	"vars: {v: {q}}", "vars: {a: 1}", "vars: {v: {q: {r: 1}}; w: ${v}}", "vars: {v: [1; 2]}", "vars: {a: null}", "vars: {v: {q: ${a}}}", "vars: {a: ${a}}", "vars: {w: {...${v}}}",
+	"x: ${a.b}", "x: ${v.q.r}", "x: ${v.q}", "x: ${v}", "x: {...${v}}", "x: {...${v}; style.fill: red; style.fill: null}", "x: {...${w}; q: null}", "x: {...${a}}", "...${v}", "...${w}",
+	"x.label: \"pre ${a} post\"", "x: |md ${a} and ${v.q} |", "x: 'single ${a}'", "x: ${a} ${v}", "x.style.fill: ${a}", "x.width: ${a}",
+	"y: [@x.a]", "y: [...@x]", "y: [@x]", "y: [${a}; ...${v}]", "y: [...${a}]", "y.class: [...${v}]",
+	"a: {...@x}", "...@x", "k: @x", "k: @x.a", "k: @x.a.b", "k: {...@y; z}", "...@y", "layers: {l: {...@x}}", "layers: {l: @x}", "scenarios: {s: {...@x; a.class: c1}}", "steps: {1: {a}; 2: {...@y}}",
+	"* -> b", "a -> *", "* -> *", "*.class: c1", "*: {&leaf: true; style.fill: red}", "*: {&connected: true; shape: circle}", "*: {&shape: circle; style.opacity: 0.4}", "*: {!&label: a; style.fill: blue}",
+	"(* -> *)[*]: {&src.shape: circle; style.stroke: red}", "(* -> *)[*]: {&dst.class: c1; class: c2}", "(a -> *)[*].class: c1", "*.style.fill: ${a}", "*: {...${v}}", "*: @x",
+	"a: null", "a.style.fill: null", "x.style: null", "style.fill: null", "(a -> b)[0]: null", "a.class: null", "classes: null", "vars: null", "classes.c1: null", "vars.v: null", "k: null",
+	"a.b.c", "_.z", "a: {_.z -> b}", "a: {b -> _.b}", "label: ${a}", "a: {vars: {a: 2}; b: ${a}}", "a: {classes: {c1: {style.fill: green}}; b.class: c1}", "a.style: {...${v}}", "a: {shape: sql_table; ...${v}}",
+	"vars: {a: '${b}'; b: hello}", "vars: {a: '${b}'; b: '${a}'}", "vars: {q: '${v}'; a: \"${q}\"}", "x: |md ${a} |", "x: |md ${b} ${a} ${q} |", "x.tooltip: |md ${a} |",
+	"x.class: [c1; c2; c1]", "a -> b: {class: [c2; c1; c2]}", "classes: {c1: {shape: hexagon; style.fill: red}; c2: {shape: circle; style.fill: blue}}",
+	"a: {shape: class; ...@x}", "near: ${a}", "a.near: ${a}", "a.link: ${a}", "a.icon: ${a}", "direction: ${a}", "vars: {d2-config: {sketch: true}}", "vars: {d2-config: ${v}}", "vars: {d2-legend: {...${v}}}",
+}
+
+// genSoup draws a small file set whose files are made of soupLines.
+func genSoup(t *rapid.T) progCase {
+	c := progCase{Files: map[string][]byte{}, Kind: "soup"}
+	file := func(label string, lo, hi int) []byte {
+		n := rapid.IntRange(lo, hi).Draw(t, label)
+		var sb strings.Builder
+		for i := 0; i < n; i++ {
+			sb.WriteString(rapid.SampledFrom(soupLines).Draw(t, label+"l"))
+			sb.WriteByte('\n')
+		}
+		return []byte(sb.String())
+	}
+	c.Files["index.d2"] = file("idx", 2, 9)
+	if rapid.IntRange(0, 3).Draw(t, "hasx") > 0 {
+		c.Files["x.d2"] = file("x", 0, 6)
+	}
+	if rapid.IntRange(0, 2).Draw(t, "hasy") == 0 {
+		c.Files["y.d2"] = file("y", 0, 4)
+	}
+	return c
+}
+
 func countStatements(s []byte) int {
 	return bytes.Count(s, []byte("\n")) + bytes.Count(s, []byte(";")) + 1
 }
